@@ -4,11 +4,11 @@ use crate::support::*;
 use educe::Educe;
 use core::cmp::Ordering;
 #[derive(Educe)]
-#[educe(PartialEq, Eq, Ord)]
-pub struct T { #[educe(Ord(method(m_cmp), rank(7)))] source: A<0>, f: A<0> }
-impl PartialOrd for T { fn partial_cmp(&self, o: &Self) -> Option<Ordering> { Some(::core::cmp::Ord::cmp(self, o)) } }
-pub fn values() -> Vec<T> { vec![T { source: A(0), f: A(0) }, T { source: A(0), f: A(1) }, T { source: A(0), f: A(7) }, T { source: A(1), f: A(0) }, T { source: A(1), f: A(1) }, T { source: A(1), f: A(7) }, T { source: A(7), f: A(0) }, T { source: A(7), f: A(1) }, T { source: A(7), f: A(7) }] }
-pub fn show(x: &T) -> String { #[allow(unused_variables)] match x { T { source: p0, f: p1 } => format!("T({},{})", sv(p0), sv(p1)) } }
-pub fn o_disc(x: &T) -> i128 { match x { T { source: _, f: _ } => 0 } }
-pub fn o_cmp(a: &T, b: &T) -> Ordering { match (a, b) { (T { source: a0, f: a1 }, T { source: b0, f: b1 }) => { let c = ::core::cmp::Ord::cmp(a1, b1); if c != Ordering::Equal { return c; } let c = m_cmp(a0, b0); if c != Ordering::Equal { return c; } Ordering::Equal } } }
-pub fn run(out: &mut Out) { let vs = values(); for (i, a) in vs.iter().enumerate() { for (j, b) in vs.iter().enumerate() { let e = o_cmp(a, b); let g = ::core::cmp::Ord::cmp(a, b); out.check(g == e, "ord_5", "cmp", || format!("cmp({}, {}) = {:?} expected {:?}", show(a), show(b), g, e)); } } }
+#[educe(PartialOrd, Eq, PartialEq)]
+pub struct T;
+
+pub fn values() -> Vec<T> { vec![T] }
+pub fn show(x: &T) -> String { #[allow(unused_variables)] match x { T => format!("T()") } }
+pub fn o_disc(x: &T) -> i128 { match x { T => 0 } }
+pub fn o_pcmp(a: &T, b: &T) -> Option<Ordering> { match (a, b) { (T, T) => {  Some(Ordering::Equal) } } }
+pub fn run(out: &mut Out) { let vs = values(); for (i, a) in vs.iter().enumerate() { for (j, b) in vs.iter().enumerate() { let e = o_pcmp(a, b); let g = ::core::cmp::PartialOrd::partial_cmp(a, b); out.check(g == e, "ord_5", "partial_cmp", || format!("partial_cmp({}, {}) = {:?} expected {:?}", show(a), show(b), g, e)); } } }
